@@ -380,6 +380,8 @@ LEN_CONDS = ('NonEmpty', 'Empty', 'len1_3')
 # world: classes, enums, typevars defined during a run
 
 TYPEVARS = {n: t.TypeVar(n) for n in ('T', 'U')}
+TYPEVARS['B'] = t.TypeVar('B', bound=int)
+TYPEVARS['K'] = t.TypeVar('K', int, str)
 
 
 class World:
@@ -677,10 +679,30 @@ def sample_value(ast, world: World, rng, valid_p=0.8, alphabet='mixed', depth=0)
         binding = dict(zip(all_typevars(spec, world), ast[2:]))
         return sample_instance_data(spec, binding, world, rng, valid_p, alphabet, depth)
     if k == 'tv':
+        if ast[1] == 'B':
+            return sample_int(rng)
+        if ast[1] == 'K':
+            return rng.choice([sample_int(rng), sample_str(rng, alphabet)])
         return rng.choice(JUNK)
     if k == 'tagged':
         member = rng.choice(ast[3:])
         body = rec(member)
+        ext = ast[2]
+        spec = world.class_specs.get(member[1]) if member[0] == 'cls' else None
+        tagval = None
+        if spec is not None:
+            for f in spec['fields']:
+                if f['n'] == ast[1] and 'd' in f:
+                    tagval = dec(f['d'])
+        if isinstance(body, dict):
+            if ext is False:
+                body = dict(body)
+                body[ast[1]] = tagval
+                return body
+            body = {kk: vv for (kk, vv) in body.items() if kk != ast[1]}
+            if ext is True:
+                return {tagval: body}
+            return {ext[0]: tagval, ext[1]: body}
         return body
     raise HarnessError(f"sample_value: unknown node {ast!r}")
 
@@ -766,7 +788,7 @@ def sample_instance_data(spec, binding, world, rng, valid_p, alphabet, depth):
 LEAF_SCALARS = ['int', 'float', 'str', 'bool', 'none', 'Fraction', 'Decimal', 'date', 'datetime', 'time',
                 'PurePath', 'Pattern', 'bytes', 'complex', 'any']
 
-ALL_KINDS = ['list', 'set', 'vtuple', 'tuple', 'dict', 'tlist', 'tset', 'tseq', 'tvtuple', 'ttuple', 'tdict', 'tmap',
+ALL_KINDS = ['tvar', 'tagged', 'list', 'set', 'vtuple', 'tuple', 'dict', 'tlist', 'tset', 'tseq', 'tvtuple', 'ttuple', 'tdict', 'tmap',
              'opt', 'union', 'lit', 'ann', 'tl', 'dl', 'cls', 'enum', 'gen', 'vol', 'range', 'frozenset']
 
 
@@ -832,6 +854,15 @@ def gen_type(rng, world: World, kinds, scalars, depth=0, max_depth=3, top=True, 
                                          depth + 1, max_depth, False, False) for _ in range(ntv)]
     if k == 'range':
         return ['range', ['s', rng.choice(['int', 'float'])]]
+    if k == 'tvar':
+        return ['tv', rng.choice(['T', 'B', 'K', 'B', 'K'])]
+    if k == 'tagged':
+        tagged = [n for (n, sp) in world.class_specs.items() if sp.get('tag') and not sp.get('tv')]
+        if len(tagged) < 2:
+            return ['s', rng.choice(scalars)]
+        members = rng.sample(tagged, 2)
+        ext = rng.choice([False, False, True, ['t', 'c']])
+        return ['tagged', 'kind', ext] + [['cls', m] for m in members]
     return ['s', rng.choice(scalars)]
 
 
@@ -863,7 +894,7 @@ FIELD_NAMES = ['x', 'y', 'z', 'w', 'foo_bar', 'val']
 
 
 def gen_class_spec(rng, world: World, name, kinds, scalars, generic_p=0.25, inherit_p=0.2,
-                   custom_specs=(None,), tuple_p=0.3, nest_p=0.0):
+                   custom_specs=(None,), tuple_p=0.3, nest_p=0.0, tag_p=0.0):
     tv = []
     if rng.random() < generic_p:
         tv = ['T'] if rng.random() < 0.7 else ['T', 'U']
@@ -935,4 +966,8 @@ def gen_class_spec(rng, world: World, name, kinds, scalars, generic_p=0.25, inhe
     spec = {'name': name, 'fields': fields, 'opts': {k: v for (k, v) in opts.items() if v is not None},
             'tv': tv, 'base': base, 'custom': rng.choice(list(custom_specs)),
             'post_init': 'first_nonneg' if rng.random() < 0.15 else None}
+    if tag_p and rng.random() < tag_p and not tv and not base and 'tuple' not in in_format and not opts.get('rename'):
+        # a literal tag field with a default: the class can be a member of a tagged union
+        spec['fields'].append({'n': 'kind', 't': ['lit', 'k' + name], 'd': 'k' + name})
+        spec['tag'] = 'k' + name
     return spec
